@@ -810,7 +810,9 @@ def num_text(ty, cls, rng):
     if cls == "long":
         return rng.choice(["9" * 5000, "1" + "0" * 4400, "0" * 4500 + "1"])
     if cls == "junk":
-        return rng.choice(["5 x", "5;", "1,000", "1 2", "5\u00a0"])
+        # a number followed by junk (decimal and hex spelling)
+        return rng.choice(["5 x", "5;", "1,000", "1 2", "5\u00a0",
+                           "0x1Fzz", "0x10 x", "-0x8&", "0X7F;", "0x1,0"])
     if cls == "big":
         n = rng.choice([310, 400, 1000, 4299])
         t = rng.choice(["9" * n, "1" + "0" * (n - 1),
